@@ -52,6 +52,26 @@ def build_harness():
     _built = True
 
 
+JRV_EXP = os.path.join(HARNESS, "target-exp", "debug", "jrv")
+_built_exp = False
+
+
+def build_harness_exp():
+    """the same harness against the experimental-syntax build of the implementation (cargo feature `exp`)"""
+    global _built_exp
+    if _built_exp:
+        return
+    env = dict(os.environ, CARGO_NET_OFFLINE="true", CARGO_TARGET_DIR=os.path.join(HARNESS, "target-exp"))
+    t0 = time.time()
+    p = subprocess.run(["cargo", "build", "--offline", "--features", "exp"], cwd=HARNESS, env=env,
+                       stdout=subprocess.PIPE, stderr=subprocess.STDOUT, text=True)
+    if p.returncode != 0:
+        log(p.stdout[-6000:])
+        raise ToolError("experimental harness build failed")
+    log(f"[build] experimental harness ok in {time.time() - t0:.1f}s")
+    _built_exp = True
+
+
 REPO_TARGET = os.path.join(WORK, "target-repo")
 
 
@@ -266,7 +286,7 @@ def validate_groups(chk, module, cfg, lines, groups, tag, parallel=8, timeout=15
 
 # --------------------------------------------------------------------------- jrv worker pool
 
-def _run_chunk(cmds, env, timeout_per_case):
+def _run_chunk(cmds, env, timeout_per_case, exe=None):
     """Run one worker over cmds; attribute worker death to the first command without result and
     restart behind it. Returns list of results aligned with cmds."""
     results = []
@@ -275,7 +295,7 @@ def _run_chunk(cmds, env, timeout_per_case):
         batch = cmds[pos:]
         inp = "\n".join(json.dumps(c, ensure_ascii=False) for c in batch) + "\n"
         try:
-            p = subprocess.run([JRV], input=inp.encode("utf-8"), env=env, stdout=subprocess.PIPE,
+            p = subprocess.run([exe or JRV], input=inp.encode("utf-8"), env=env, stdout=subprocess.PIPE,
                                stderr=subprocess.PIPE, timeout=max(60, timeout_per_case * len(batch)))
             out, rc, err = p.stdout, p.returncode, p.stderr
             timed_out = False
@@ -301,9 +321,10 @@ def _run_chunk(cmds, env, timeout_per_case):
     return results
 
 
-def run_cmds(cmds, parallel=None, env_extra=None, timeout_per_case=20, chunk=None):
+def run_cmds(cmds, parallel=None, env_extra=None, timeout_per_case=20, chunk=None, exe=None):
     """Execute harness commands on a pool of jrv workers; order-preserving."""
-    build_harness()
+    if exe is None:
+        build_harness()
     if not cmds:
         return []
     parallel = parallel or NCPU
@@ -316,7 +337,7 @@ def run_cmds(cmds, parallel=None, env_extra=None, timeout_per_case=20, chunk=Non
         chunk = max(1, min(400, (n + parallel - 1) // parallel))
     chunks = [cmds[i:i + chunk] for i in range(0, n, chunk)]
     with ThreadPoolExecutor(max_workers=parallel) as ex:
-        parts = list(ex.map(lambda c: _run_chunk(c, env, timeout_per_case), chunks))
+        parts = list(ex.map(lambda c: _run_chunk(c, env, timeout_per_case, exe), chunks))
     out = []
     for p in parts:
         out.extend(p)
